@@ -645,7 +645,7 @@ def loop_over(ex, st, stmt, src):
             for r in exit_paths:
                 for o in _all_objs(r["st"]):
                     if o.oid == oid:
-                        maybe = fresh_const(ctx, "maybe_set", z3.BoolSort())
+                        maybe = fresh_const(ctx, "maybe_set_unknown", z3.BoolSort())
                         o.fields[fname] = _merge_const(maybe, val, o.fields.get(fname))
         st.log.append(("loop",))
         base_log = list(st.log)
